@@ -357,13 +357,13 @@ func vfGenExchange(r *verifkit.Rand, allowCont bool) *vfExchange {
 			}
 			d.headers(r, in.St.ID, d.block(kv...), in.End, in.St.Cont)
 		case "dreq":
-			_ = d.fr.WriteData(in.St.ID, in.End, in.Data)
+			vfWriteData(d.fr, r, in.St.ID, in.End, in.Data)
 		case "treq":
 			d.headers(r, in.St.ID, d.block("x-req-trailer", fmt.Sprintf("rt-%d", in.St.ID)), true, in.St.Cont)
 		case "hresp":
 			d.headers(r, in.St.ID, d.block(":status", "200", "content-type", "application/grpc", "x-resp-common", "same-value", "x-resp-own", fmt.Sprintf("own-%d", in.St.ID)), false, in.St.Cont)
 		case "dresp":
-			_ = d.fr.WriteData(in.St.ID, in.End, in.Data)
+			vfWriteData(d.fr, r, in.St.ID, in.End, in.Data)
 		case "tresp":
 			d.headers(r, in.St.ID, d.block("grpc-status", "0", "x-trail", fmt.Sprintf("t-%d", in.St.ID)), true, in.St.Cont)
 		case "rst":
@@ -886,13 +886,13 @@ func vfSchedule(ex *vfExchange, r *verifkit.Rand) []vfIntentRef {
 			}
 			d.headers(r, in.St.ID, d.block(kv...), in.End, in.St.Cont)
 		case "dreq":
-			_ = d.fr.WriteData(in.St.ID, in.End, in.Data)
+			vfWriteData(d.fr, r, in.St.ID, in.End, in.Data)
 		case "treq":
 			d.headers(r, in.St.ID, d.block("x-req-trailer", fmt.Sprintf("rt-%d", in.St.ID)), true, in.St.Cont)
 		case "hresp":
 			d.headers(r, in.St.ID, d.block(":status", "200", "content-type", "application/grpc", "x-resp-common", "same-value", "x-resp-own", fmt.Sprintf("own-%d", in.St.ID)), false, in.St.Cont)
 		case "dresp":
-			_ = d.fr.WriteData(in.St.ID, in.End, in.Data)
+			vfWriteData(d.fr, r, in.St.ID, in.End, in.Data)
 		case "tresp":
 			d.headers(r, in.St.ID, d.block("grpc-status", "0", "x-trail", fmt.Sprintf("t-%d", in.St.ID)), true, in.St.Cont)
 		case "rst":
@@ -1438,4 +1438,16 @@ func TestVerifC15Listener(t *testing.T) {
 	rep.Sample(map[string]any{"conn B": "stream 1 refused, retried as stream 3", "conn A": "one call, then the connection is closed between B's refusal and retry", "expect": "one trace for B's test: the retry"})
 	rep.RequireMin("listener_streams_ok", 300)
 	rep.RequireMin("pairs_with_a_retry_on_the_other_connection", 20)
+}
+
+
+// vfWriteData writes a DATA frame, now and then PADDED (RFC 9113 6.1): any pad length incl. 0, also when the
+// frame carries no data at all (padding-only frames, e.g. an END_STREAM frame that hides being empty).
+func vfWriteData(fr *http2.Framer, r *verifkit.Rand, id uint32, end bool, data []byte) {
+	if r != nil && r.Chance(1, 5) {
+		pad := make([]byte, verifkit.Pick(r, []int{0, 0, 1, 7, 40}))
+		_ = fr.WriteDataPadded(id, end, data, pad)
+		return
+	}
+	_ = fr.WriteData(id, end, data)
 }
